@@ -1237,7 +1237,7 @@ fn gen_ops(r: &mut Rng, n: usize, nsenders: usize, limits: &[usize], overhead: u
         };
         let cancel = if allow_cancel && r.chance(1, 7) {
             stat(stats, "send_cancel");
-            Some(r.range(1, 6) as usize)
+            Some(r.range(1, if halves > 0 { 14 } else { 6 }) as usize)
         } else {
             None
         };
@@ -1402,7 +1402,22 @@ op 2 tag=6 len=50
 op 1 tag=7 len=2
 end
 "#;
-    Case::parse(&text.lines().map(|s| s.to_string()).collect::<Vec<_>>())
+    let mut cases = Case::parse(&text.lines().map(|s| s.to_string()).collect::<Vec<_>>());
+    // sweep of the cancellation point of an item with embedded halves: some of these polls fall between the
+    // data message and the port-request batch (the receiver then holds a deserialized item that never gets
+    // its ports and must abandon it when the next message starts - without losing that message)
+    let mut sweep = String::new();
+    for (cfg, halves, len, ks) in [("11,200,200", 1, 2, 1..=8), ("16,33,200", 2, 20, 4..=12), ("10,64,200", 2, 2, 3..=9), ("10,8,200", 1, 2, 9..=15)] {
+        for k in ks {
+            sweep.push_str(&format!(
+                "case fixed-portswindow-{}-h{halves}-k{k} kind=base cfga={cfg} cfgb={cfg} smax=400 rmax=400 seed={k}\n\
+                 op 0 tag=1 len=3\nop 0 tag=2 len={len} halves={halves} cancel={k}\nop 0 tag=3 len=4\nop 0 tag=4 len=1 halves=1\nend\n",
+                cfg.replace(',', "_")
+            ));
+        }
+    }
+    cases.extend(Case::parse(&sweep.lines().map(|s| s.to_string()).collect::<Vec<_>>()));
+    cases
 }
 
 fn main() {
